@@ -503,7 +503,7 @@ pub fn check(args: &Args) -> Outcome {
         return Outcome { evidence: ev, violations: v, nothing_observed: nothing };
     }
     let deadline = Deadline::new(args.tier.pick(200, 3000));
-    let n = args.n(20_000, 2_000_000);
+    let n = args.n(20_000, 600_000);
     let seed = args.seed;
     if let Some(p) = &args.replay {
         let doc: Value = std::fs::read_to_string(p).ok().and_then(|s| serde_json::from_str(&s).ok()).unwrap_or(json!({}));
